@@ -22,6 +22,8 @@ ERR_TYPES = ("error::ActorError", "futures_channel::oneshot::Canceled", "futures
 ACCEPTED_DISCARDS = {
     ("<actor::spawner::", "ok"): "spawner join flattens task failure and actor error to None (C17 R17.2)",
     ("<actor::spawner::", "and_then"): "tokio join: Result<DynResult<A>, JoinError> flattened to Option (C17 R17.2)",
+    ("<broker::", "dropped"): "broker fan-out: a subscriber that went away is not an error (C09: terminated subscribers neither block nor fail a publish)",
+    ("broker::", "dropped"): "broker fan-out: a subscriber that went away is not an error (C09)",
     # the same, when the join future is built by a named function of the spawner module
     ("actor::spawner::", "ok"): "spawner join flattens task failure and actor error to None (C17 R17.2)",
     ("actor::spawner::", "and_then"): "tokio join: Result<DynResult<A>, JoinError> flattened to Option (C17 R17.2)",
@@ -254,7 +256,7 @@ def check_cfg(ctx, fx, cfg):
                 ctx.ok("R02.5", inst, loc, sorted(cls))
                 continue
             root = f.get("root", f["def"])
-            acc = [why for (pfx, cons), why in ACCEPTED_DISCARDS.items() if root.startswith(pfx) and cons in cls]
+            acc = [why for (pfx, cons), why in ACCEPTED_DISCARDS.items() if root.startswith(pfx) and (cons in cls or (cons == "dropped" and not cls))]
             if acc:
                 ctx.ok("R02.5", inst, loc, {"accepted": acc[0], "consumers": sorted(cls)})
             else:
